@@ -495,6 +495,9 @@ func (c *fnctx) stmts(list []ast.Stmt, rest string) string {
 	if out, ok := c.stmtExt(list, rest); ok {
 		return out
 	}
+	if out, ok := c.stmtLoopExt(list, rest); ok {
+		return out
+	}
 	switch x := s.(type) {
 	case *ast.ReturnStmt:
 		if len(x.Results) == 0 {
